@@ -2,7 +2,7 @@
    line written by the Go harness) to the canonical text of the model's
    observable.  Used identically by the extracted OCaml driver and by the
    in-Coq vm_compute evaluation. *)
-From Lungo.Model Require Import Compare.
+From Lungo.Model Require Import File Compare.
 Open Scope string_scope.
 
 Definition bad : string := "BAD-CASE".
@@ -25,6 +25,8 @@ Definition run_cmp (x : sexp) : option string :=
 
 Definition runners : list (sexp -> option string) :=
   [ run_cmp
+  ; run_codec
+  ; run_file
   ].
 
 Fixpoint first_some (rs : list (sexp -> option string)) (x : sexp) : string :=
